@@ -127,3 +127,19 @@ Definition fault_image (t : N) (newh : header) (tgt : bool) (d : disk) (ios : li
   | Some o => apply_io t newh tgt d1 o f
   | None => d1
   end.
+
+(* ---------- what the process keeps in memory after a failed commit (C11) ---------- *)
+Inductive memfl := MemOld | MemNew.
+(* [publish_on_visible] is the GENERATED flag Consts.publish_on_visible_header: does commit() replace the
+   shared free list whenever the new header is the visible one, or only after a fully successful commit *)
+Definition mem_after (publish_on_visible completed : bool) (img : disk) (newh : header) : memfl :=
+  if completed then MemNew else
+  if publish_on_visible then
+    match select img with
+    | Some h => if h_tx h =? h_tx newh then MemNew else MemOld
+    | None => MemOld
+    end
+  else MemOld.
+(* the shared free list must describe the header the next transaction will read *)
+Definition mem_consistent (img : disk) (cur newh : header) (m : memfl) : Prop :=
+  (select img = Some newh -> m = MemNew) /\ (select img = Some cur -> m = MemOld).
